@@ -248,7 +248,7 @@ def run_check(pid: str, tier: str, seed: int) -> int:
 
     # 2. generated survey, sharded
     total = prop.BUDGET[tier]
-    nsh = min(NSHARDS, max(1, total // 50))
+    nsh = min(NSHARDS, max(1, total // getattr(prop, 'SHARD_MIN', 50)))
     per = -(-total // nsh)
     jobs = [(pid, k, shard_seed(seed, pid, k), per, tier) for k in range(nsh)]
     if nsh == 1:
